@@ -385,6 +385,24 @@ func exec(e *lp.Exec) {
 	finish()
 }
 
+// guard runs a call into nbio under a watchdog: a call that does not return (a loop that stopped making progress)
+// is reported as a direct-oracle failure of C15 ("the bounded inflate loop terminates") and ends the process;
+// `echo` is the op line to print first so that the report is attributed to the right case.
+func guard(e *lp.Exec, echo string, f func() error) error {
+	done := make(chan error, 1)
+	go func() { done <- f() }()
+	select {
+	case err := <-done:
+		return err
+	case <-time.After(20 * time.Second):
+		e.P("> %s", echo)
+		e.P("R hang")
+		e.Oracle("c15-limit", "class=hang a call into websocket.Conn did not return within 20s (%s)", strings.Fields(echo)[0])
+		os.Exit(3)
+	}
+	return nil
+}
+
 func actsStr(a []string) string { return "[" + strings.Join(a, ";") + "]" }
 
 func execD(e *lp.Exec, rc *recvCase, lg *capLogger, f []string) {
@@ -399,7 +417,7 @@ func execD(e *lp.Exec, rc *recvCase, lg *capLogger, f []string) {
 	ep.reset()
 	cache0 := ep.ws.VerifCacheLen()
 	t0 := time.Now()
-	err := ep.ws.Parse(append([]byte{}, seg...))
+	err := guard(e, "D "+f[1]+" infl= keys=", func() error { return ep.ws.Parse(append([]byte{}, seg...)) })
 	if d := time.Since(t0); d > 5*time.Second {
 		e.Oracle("c15-limit", "class=slow Parse took %v on %d bytes", d, len(seg))
 	}
@@ -642,6 +660,7 @@ func (r *rtCase) cuts(n int) []int {
 	return out
 }
 
+// keysOf: the mask keys of the frames in a list of conn writes (tolerant of malformed frames: it stops there)
 func keysOf(writes [][]byte) string {
 	var ks []string
 	for _, w := range writes {
@@ -650,15 +669,27 @@ func keysOf(writes [][]byte) string {
 			hl := 2
 			n := uint64(b[1] & 0x7f)
 			if n == 126 {
+				if len(b) < 4 {
+					break
+				}
 				n = uint64(binary.BigEndian.Uint16(b[2:4]))
 				hl = 4
 			} else if n == 127 {
+				if len(b) < 10 {
+					break
+				}
 				n = binary.BigEndian.Uint64(b[2:10])
 				hl = 10
 			}
 			if b[1]&0x80 != 0 {
+				if len(b) < hl+4 {
+					break
+				}
 				ks = append(ks, lp.Hex(b[hl:hl+4]))
 				hl += 4
+			}
+			if n > uint64(len(b)-hl) {
+				break
 			}
 			b = b[hl+int(n):]
 		}
@@ -701,7 +732,8 @@ func (r *rtCase) execW(e *lp.Exec, lg *capLogger, f []string) {
 	for _, k := range cuts {
 		cs = append(cs, strconv.Itoa(k))
 		if rerr == 0 {
-			rerr = errCode(rcv.ws.Parse(append([]byte{}, rest[:k]...)))
+			seg := append([]byte{}, rest[:k]...)
+			rerr = errCode(guard(e, strings.Join(f, " "), func() error { return rcv.ws.Parse(seg) }))
 		}
 		rest = rest[k:]
 	}
@@ -725,9 +757,10 @@ func (r *rtCase) execW(e *lp.Exec, lg *capLogger, f []string) {
 	e.Count("rt_ops", f[2])
 	// c12-roundtrip: received == sent (type, payload, exactly once, nothing else)
 	if mt == 1 || mt == 2 {
-		deliverable := !r.closed && (mt == 2 || utf8.Valid(data)) && (r.limit == 0 || len(data) < r.limit ||
-			(len(data) == r.limit && len(snd.defl) == 0)) && (r.limit == 0 || len(snd.defl) == 0 || len(snd.defl[0]) <= r.limit)
-		boundary := r.limit > 0 && len(data) == r.limit && len(snd.defl) > 0
+		// deliverable: valid text or binary, within the receiver's limit both as written (deflated) and as delivered
+		deliverable := !r.closed && (mt == 2 || utf8.Valid(data)) && (r.limit == 0 || len(data) <= r.limit) &&
+			(r.limit == 0 || len(snd.defl) == 0 || len(snd.defl[0]) <= r.limit)
+		boundary := false
 		got := len(rcv.delivered)
 		switch {
 		case deliverable && (werr != 0 || got != 1 || rcv.dtypes[0] != mt || !bytes.Equal(rcv.delivered[0], data)):
